@@ -524,7 +524,96 @@ func (w *idpWorld) checkSAML(res, requested string) {
 	}
 }
 
+// dupEntityRestart: the point the registry theorems exclude (two service names, one entity ID), run on the real server.
+// After PUT a(E), PUT b(E), DELETE a the store still holds b with E; the running server and a server re-created over
+// the same store are asked whether E is registered. (Metadata identical for a and b, so iteration order plays no part.)
+func (c *Ctx) dupEntityRestart() {
+	st := &samlidp.MemoryStore{}
+	srv := c.c20Server(st)
+	E := "https://dup.example.com/md"
+	codes := []int{serve(srv, "PUT", "/services/a", spMetadataXML(E, true), ""), serve(srv, "PUT", "/services/b", spMetadataXML(E, true), ""), serve(srv, "DELETE", "/services/a", nil, "")}
+	r := httptest.NewRequest("GET", "/", nil)
+	reg := func(s *samlidp.Server) string {
+		if _, err := s.GetServiceProvider(r, E); err != nil {
+			return "unregistered"
+		}
+		return "registered"
+	}
+	orig, again := reg(srv), reg(c.c20Server(st))
+	impl := fmt.Sprintf("%v original=%s restarted=%s", codes, orig, again)
+	orc := ""
+	if orig != again {
+		orc = "key=c19-duplicate-entity-restart after PUT /services/a (entity E), PUT /services/b (entity E), DELETE /services/a the running server reports E " + orig + " and a server re-created over the same store reports it " + again
+	}
+	c.count("c19-duplicate-entity-restart", orig+"/"+again)
+	c.emitOneWay("duprestart", nil, strings.ReplaceAll(impl, " ", "_"), orc)
+}
+
+// passwordClasses: "only for a user who presented that user's current password" at the edges of what bcrypt tells apart —
+// it keys on the first 72 bytes of password+NUL, repeated, so a NUL inside a password or bytes beyond the 72nd make
+// different strings verify against one hash. Whatever the server accepts as a password at PUT, a different string must
+// not log in. (Direct calls on a fresh server; the model's bcrypt is symbolic on NUL-free passwords of at most 72 bytes.)
+func (c *Ctx) passwordClasses() {
+	st := &samlidp.MemoryStore{}
+	srv := c.c20Server(st)
+	put := func(user, pw string) int {
+		b, _ := json.Marshal(map[string]interface{}{"email": user + "@example.com", "password": pw})
+		return serve(srv, "PUT", "/users/"+user, b, "")
+	}
+	login := func(user, pw string) bool {
+		r := httptest.NewRequest("POST", "/login", strings.NewReader(url.Values{"user": {user}, "password": {pw}}.Encode()))
+		r.Header.Set("Content-Type", "application/x-www-form-urlencoded")
+		w := httptest.NewRecorder()
+		srv.ServeHTTP(w, r)
+		for _, ck := range w.Result().Cookies() {
+			if ck.Name == "session" && ck.Value != "" {
+				return true
+			}
+		}
+		return false
+	}
+	k72 := strings.Repeat("k", 72)
+	var why []string
+	cases := []struct {
+		user, set string
+		others    []string
+	}{
+		{"dora", "pw-d", []string{"pw-d\x00", "pw-d\x00pw-d", "pw-d\x00anything", "pw-d\x00pw-d\x00pw-d"}},
+		{"erin", k72, []string{k72 + "x", k72 + "\x00", k72 + k72}},
+		{"fay", k72 + "y", []string{k72 + "z", k72, k72 + "yy"}},
+		{"gil", "a\x00b", []string{"a", "a\x00", "a\x00b\x00a\x00b", "a\x00c"}},
+		{"hal", strings.Repeat("h", 71), []string{strings.Repeat("h", 71) + "\x00", strings.Repeat("h", 71) + "\x00junk"}},
+	}
+	res := safely(func() string {
+		for _, k := range cases {
+			code := put(k.user, k.set)
+			accepted := code >= 200 && code < 300
+			if accepted && !login(k.user, k.set) {
+				why = append(why, fmt.Sprintf("PUT /users/%s accepted a %d-byte password that then does not log in", k.user, len(k.set)))
+			}
+			if !accepted && login(k.user, k.set) {
+				why = append(why, fmt.Sprintf("PUT /users/%s refused the password (%d) and yet it logs in", k.user, code))
+			}
+			for _, o := range k.others {
+				if login(k.user, o) {
+					why = append(why, fmt.Sprintf("user %s has the password %q (PUT answered %d); the different string %q logs in", k.user, k.set, code, o))
+				}
+			}
+		}
+		return "done"
+	})
+	orc := ""
+	if strings.HasPrefix(res, "panic") {
+		orc = "key=c19-password-classes-panic " + res
+	} else if len(why) > 0 {
+		orc = "key=c19-bcrypt-equivalence " + strings.Join(why, "; ")
+	}
+	c.emitOneWay("pwclasses", nil, res, orc)
+}
+
 func (c *Ctx) genC19() {
+	c.dupEntityRestart()
+	c.passwordClasses()
 	histories := 10
 	steps := 45
 	if !c.quick() {
@@ -565,6 +654,38 @@ func (c *Ctx) genC19() {
 			w.putUser("alice", "alice@example.com", "Alice A", []string{"staff"}, nil, nil) // no password in the body: the stored one stays
 			w.login("alice", "pw-b", true, "", nil)
 			pwBudget -= 6
+		}
+		if h == 1 {
+			// several services, a restart, then requests for each of them: every entity keeps its own metadata
+			w.putService("svc2", entities[1], true, false, nil)
+			w.putShortcut("sc1", entities[0], nil, false, false, nil)
+			w.putShortcut("sc2", entities[1], nil, false, false, nil)
+			first := w.login("alice", "pw-a", true, "", nil)
+			sid0 := ""
+			for sid, l := range w.sids {
+				if strings.HasSuffix(first, "/"+l) {
+					sid0 = sid
+				}
+			}
+			restart := func() {
+				w.store.faults = nil
+				w.newServer()
+				w.toks = append(w.toks, "restart", "0")
+				w.impl = append(w.impl, "0/empty/-")
+				w.n++
+			}
+			for round := 0; round < 2; round++ {
+				restart()
+				for _, e := range entities[:2] {
+					w.sso(e, true, "", "", false, sid0, "rs", nil)
+				}
+				w.shortcut("sc1", "", sid0, nil)
+				w.shortcut("sc2", "", sid0, nil)
+				if round == 0 {
+					w.deleteService("svc2", nil)
+				}
+			}
+			pwBudget -= 2
 		}
 		for i := 0; i < steps; i++ {
 			pickSid := func() string {
